@@ -205,7 +205,7 @@ impl Property for C01 {
         }
         Meta {
             level: "exploration",
-            rule: "same session engine and scenarios as C05 (30 directed scenarios x variants + bounded-exhaustive timing grids (request at 50..70 ms x notification at 50..70 ms at 1 ms resolution x wire latency x idle-reply chopping; second request and notification at -5..+5 ms around the end of the re-idle window) x select! seeds + seeded random: 1-6 callers through client clones, raw commands and lists, pipelined futures, cancellation after 0..2D, typed tuples/vectors, replies 20 B - 9 KiB incl. binary and idle-look-alike replies, all segmentations, notifications racing with requests); every request carries a unique id (caller, seq) in its arguments and the simulated server's reply is a pure function of that id, recomputed by the checker: every resolved call must carry exactly its own reply (frames, field order, values, binary), a list failing at index f must give the server's ACK (code, index f, command, message) plus exactly the frames 0..f, the request lines of one caller must reach the server in issue order, nothing may hang, cancelled calls must not disturb the others; non-trivial = session with overlap (P1,P2,P6,P7,P9,P12); distinct by interleaving signature".into(),
+            rule: "same session engine and scenarios as C05 (34 directed scenarios x variants + bounded-exhaustive timing grids (request at 50..70 ms x notification at 50..70 ms at 1 ms resolution x wire latency x idle-reply chopping; second request and notification at -5..+5 ms around the end of the re-idle window) x select! seeds + seeded random: 1-6 callers through client clones, raw commands and lists, pipelined futures, cancellation after 0..2D, typed tuples/vectors, replies 20 B - 9 KiB incl. binary and idle-look-alike replies, all segmentations, notifications racing with requests); every request carries a unique id (caller, seq) in its arguments and the simulated server's reply is a pure function of that id, recomputed by the checker: every resolved call must carry exactly its own reply (frames, field order, values, binary), a list failing at index f must give the server's ACK (code, index f, command, message) plus exactly the frames 0..f, the request lines of one caller must reach the server in issue order, nothing may hang, cancelled calls must not disturb the others; non-trivial = session with overlap (P1,P2,P6,P7,P9,P12); distinct by interleaving signature".into(),
             nontrivial_set: "nontrivial",
             assumptions: vec![
                 "simulated server as in C05; a cancelled call may or may not reach the server".into(),
